@@ -185,7 +185,7 @@ CLAIMED["C14"] = {
             "with the model after every command; refusals must leave the file bytes unchanged; extract must return the MOC added. One defect repaired (chgstatus on a full file applied the "
             "change but reported failure).",
     "design_ref": "DESIGN.md §4 C14, §10",
-    "note": TB + "; process-level observation of the mocset binary; byte layout not modelled",
+    "note": TB + "; process-level observation of the mocset binary and of the bytes of its file",
     "technique": "Lean 4 proof on a reference state machine + correspondence with the real binary after every command of generated histories",
 }
 CLAIMED["C15"] = {
@@ -275,6 +275,19 @@ _add("C15", "Positions and cones at lat = +90 and -90 degrees are driven (the no
 _add("C16", "A reader that is ALREADY walking the file when an append completes is reproduced deterministically (undrained pipe, 16000 MOCs): it must answer with the state before or after (it crashed, repaired a3a90d0).")
 _add("C18", "tmoc_ranges_contains_exactly / fmoc_ranges_contains_exactly now hold for EVERY list of ranges, empty ones included (no cell for an empty range whatever its alignment and the index width).")
 _add("C19", "After the bug hunt: `from timerange` with empty and reversed ranges, empty lists of regions (`from cones|multi|pos`), `--moc-id` of every length around the capacity of a FITS card (repaired 3c6b81c 49f5a2b 2f9e313 6fedaa8).")
+_add("C05", "Session 5: the NUNIQ view produced by the real range -> NUNIQ iterator is compared VALUE BY VALUE with the NUNIQ numbers of the model's normal-form cells (op r_nuniq): four siblings in place of their parent are reported although the covered set is the same (seed C05e).")
+_add("C07", "Session 5: the ASCII round trip is proved at the CHARACTER level (ascii_text_lex, ascii_text_roundtrip, ascii_text_roundtrip_moc): decimal printing is inverted by the lexer's number parser (digitsVal_showNat), the lexer run on the concatenated token texts returns the tokens "
+            "whatever the separators (lexAll_showToks), so reading the characters written for any valid MOC returns (depth, MOC) for the three quantities on u16 / u32 / u64 (fit_instances); the text the driver compares with the real writer's bytes is that very definition. JSON is written with fold widths None / 30 / 16 / 10 (seed C07e).")
+_add("C11", "Session 5: the ST ASCII round trip is proved at the CHARACTER level (st_ascii_text_lex, st_ascii_text_roundtrip): trimming, the split on the `t` prefixes, the split of every element on `s` and the two 1-D lexers applied to the characters the writer emits return exactly the elements; "
+            "ST JSON is written with fold widths 40 / 24 / 12 / None (seed C11e).")
+_add("C08", "Session 5: operand pairs in which one element SPANS several consecutive elements of the other operand (spanning_st) are generated (seed C08e: an arm of the streaming union reached by 0.3% of independent random pairs).")
+_add("C12", "Session 5: the exhaustive (card, value) pass also uses powers of two around the largest NSIDE and the bounds of the integer types (seed C12e: NSIDE 2^30 reached an assertion).")
+_add("C14", "Session 5: the FILE is modelled (Model/MocSetFile.lean: the metadata words status/depth/identifier, the cumulative index words, the little-endian 32- / 64-bit range bytes; the reader's zip of the two iterators; the scan / stores of append, the walk of chg_multi_status with its shrinking map, purge, make, list) "
+            "and every command is PROVED to commute with the reader's abstraction map on every reachable file (meta_word_roundtrip, moc_bytes_roundtrip, file_make_refines, file_append_refines, file_chg_refines, file_purge_refines, file_list_refines, and file_history_refines for every command history); "
+            "tie: after every command of the generated histories the real file is compared with the model WORD FOR WORD (metadata, index) and on its data bytes (op msf).")
+_add("C16", "Session 5: append_interrupted_file_view: on the file model a writer killed after k of the three stores of append (data, index word, metadata word) leaves a file READ BACK as exactly the old moc-set (k <= 2) or exactly the new one (k = 3), for every reachable file; "
+            "append_interrupted_then_retry: the leftover bytes are overwritten by the next append. Tie: at every append kill point the real file left behind is compared word for word / byte for byte with fileAppendPrefix (op msfk).")
+_add("C19", "Session 5: RFC 3339 timestamps and time ranges with fractions of a second are driven at depths 61 / 51 / 42 (seed C19e).")
 _add("C20", "After the bug hunt the four descent theorems carry the STRICT inequality of the property (a threshold exactly on a sub-cell boundary cuts nothing and is met exactly; the code was off by a whole piece, repaired b3d1506; the model has the guards "
             "of the repaired code and the reverse lower descent recurses into itself, d3d6aa3), the harness judges the implementation with the exact sum of the pieces really cut, thresholds on every quarter / finest-piece boundary in both density orders are generated, "
             "and the sky-map reader is driven with skipped, UNSEEN and NaN pixels against the model (repaired 655082e). The whole-selection theorem selection_mass_bracket carries the strict inequality too (third conjunct; equality when no boundary cell is descended into).")
